@@ -464,6 +464,16 @@ func (vt *Model) print(seq ansi.Print) {
 		vt.nel()
 	}
 
+	if column(w) > vt.margin.right-vt.margin.left+1 {
+		// The character is wider than the line, it can't be shown
+		return
+	}
+	if vt.cursor.col+column(w)-1 > vt.margin.right {
+		// We didn't wrap and there is no room left: the character
+		// takes the last columns of the line
+		vt.cursor.col = vt.margin.right - column(w) + 1
+	}
+
 	col := vt.cursor.col
 	rw := vt.cursor.row
 
